@@ -49,6 +49,7 @@ impl<const N: usize> Ex<N> {
         self.moved_in.clear();
         self.allocs = 0;
         self.window_panicked = false;
+        self.spec_returned = false;
         self.stats.steps += 1;
         if let Some((k, _)) = st.fault {
             self.stats.fault_configured[k as usize] += 1;
@@ -111,7 +112,7 @@ impl<const N: usize> Ex<N> {
             observed[b] = true;
         }
         let _ = &observed;
-        if self.fail.is_some() && !failed_in_op {
+        if self.fail.is_some() && (!failed_in_op || self.spec_returned) {
             // complete the observation (read-only) so that the failure can be diagnosed
             for b in 0..2 {
                 if !observed[b] && self.bufs[b].is_some() {
@@ -125,17 +126,26 @@ impl<const N: usize> Ex<N> {
         }
         if self.fail.is_none() {
             self.check_conservation(self.faulted, out.own);
-        } else if self.faulted.is_none() && !failed_in_op && observed[0] && observed[1] {
+        } else if self.faulted.is_none() && (!failed_in_op || self.spec_returned) && observed[0] && observed[1] {
             // the step already failed (typically: contents differ from the model). If elements
             // have also vanished — alive, but neither in a buffer as observed nor with the caller —
             // the same failure is an ownership failure too (C03).
             let mut owned: Vec<u32> = all_items[0].iter().chain(all_items[1].iter()).map(|i| i.id).collect();
             owned.extend(self.hand.iter().map(|t| t.id));
             owned.sort_unstable();
+            let dup: Vec<u32> = owned.windows(2).filter(|w| w[0] == w[1]).map(|w| w[0]).collect();
             let lost: Vec<u32> = H.with(|h| {
                 let h = h.borrow();
                 h.ents.iter().enumerate().skip(1).filter(|(id, e)| e.drops == 0 && !e.leaked && owned.binary_search(&(*id as u32)).is_err()).map(|(id, _)| id as u32).collect()
             });
+            if !dup.is_empty() {
+                if let Some(f) = &mut self.fail {
+                    if f.classes & (cls::CONTENTS | cls::RET) != 0 && f.classes & cls::HARNESS == 0 {
+                        f.classes |= cls::LEDGER;
+                        f.msg = format!("{} [also: elements {:?} are reachable from two places]", f.msg, &dup[..dup.len().min(8)]);
+                    }
+                }
+            }
             if !lost.is_empty() {
                 if let Some(f) = &mut self.fail {
                     if f.classes & (cls::CONTENTS | cls::RET) != 0 && f.classes & cls::HARNESS == 0 {
